@@ -2,6 +2,9 @@ import Juniper.Proofs.ParDoState
 /-! Inductive invariants of the `parallel.Do` / `DoContext` LTS, part 4: failure tracking (a failed call
 or a skipped index leaves a trace until the return), the `parallelism - 1` bound on calls that begin
 with a cancelled context, and the positional result slice of `Map` / `MapContext`. -/
+set_option linter.unusedSimpArgs false
+set_option linter.unusedVariables false
+
 namespace Juniper.Proofs.ParDo
 open Juniper.Gen Juniper.Model.ParDo
 
